@@ -1072,6 +1072,10 @@ class Fxp():
         if val is not None and self.scaled:
             if isinstance(val, (np.ndarray, np.generic)) and val.dtype.kind == 'u' and self.n_word < _n_word_max:
                 val = val.astype(np.int64)  # unsigned codes are moved to signed integers: scale or bias could be negative
+            if isinstance(val, (np.ndarray, np.generic)) and val.dtype.kind == 'i' and val.size > 0 \
+                    and isinstance(self.scale, (int, np.integer)) and isinstance(self.bias, (int, np.integer)) \
+                    and max(abs(int(np.max(val))), abs(int(np.min(val)))) * abs(int(self.scale)) + abs(int(self.bias)) >= 2**63:
+                val = np.asarray(val).astype(object)    # (the integer result does not fit in 64 bits: python integers)
             val = val * self.scale + self.bias
         return val
 
